@@ -291,7 +291,7 @@ theorem processElement_ds (txt : Bytes) (c c' : Ctx) (e : EndKind) (r : Range)
     rw [Res.bind_eq_ok] at h
     obtain ⟨⟨c2, attrs⟩, h2, h⟩ := h
     have s1 := resolveNamespaces_ds txt _ _ _ h1 hd
-    have s1' : DS txt { c1 with nsStartIdx := c1.doc.ns.treeOrder.size } :=
+    have s1' : DS txt { c1 with nsStartIdx := c1.doc.ns.treeOrder.size, xmlDeclared := false } :=
       ⟨s1.nodes, s1.attrs, s1.ns, s1.tag, s1.tagPos, s1.cur, s1.ents⟩
     have s2 := resolveAttributes_ds _ _ _ _ _ h2 s1'
     try dsimp only at h
